@@ -63,3 +63,10 @@ Definition spec_select (c : config) (alpn : list (list N)) (sni : list N) : opti
          | None => None
          end
        end.
+
+(* Independent reading of "duplicate TLS hosts" (C13) / "the host entry its SNI designates" (C05): host settings are
+   well-formed when no name - host name or alternative SNI - is claimed by two different entries, so that an SNI that
+   designates an entry designates exactly one. A name repeated within one entry designates that entry either way. *)
+Definition one_entry_per_name (entries : list (list (list N))) : Prop :=
+  forall i j e1 e2 x,
+    nth_error entries i = Some e1 -> nth_error entries j = Some e2 -> In x e1 -> In x e2 -> i = j.
